@@ -64,6 +64,10 @@ def cases(draw, tier):
             tree = {"k": "bd", "ch": [g.t_inv(s, 1) for s in rs], "mult": mult}
     else:
         tree = g.sq(n, trait, depth)
+    if g.integer(1, 8) == 1:
+        # the lazy inverse returned by cola.linalg.inv as (part of) the operand: det(A^-1) = 1 / det(A)
+        # (the inverse of a positive definite operator is positive definite; a product with a general factor is not)
+        tree = {"k": "inv", "ch": [tree]} if g.boolean() or trait == "pd" else {"k": "prod", "via": "op", "ch": [{"k": "inv", "ch": [tree]}, g.t_inv(n, 1)]}
     # push |det| below / above one
     sc = g.pick([None, None, 0.25, 0.5, 4.0])
     if sc is not None and tree["k"] != "perm":
@@ -81,7 +85,8 @@ def cases(draw, tier):
         la = g.pick(["omitted", "Auto", "LU"])
     # payload scale of the dense / triangular leaves: the determinant itself may leave the floating point range (10^-480
     # for 8 x 8 in double precision) while sign and log-magnitude stay perfectly representable
-    lscale = 0 if la in ("Lanczos", "Arnoldi") else g.pick([0, 0, 0, 0, -1, 1])
+    # (not together with an inverse operand: rows of 1e+60 next to rows of 1e-7 defeat the pivoting of the dense reference)
+    lscale = 0 if la in ("Lanczos", "Arnoldi") or "inv" in IR.kinds(tree) else g.pick([0, 0, 0, 0, -1, 1])
     return {"tree": tree, "log_alg": la, "trace_alg": g.pick(TR_ALGS), "declare": g.boolean(), "fn": g.pick(["slogdet", "slogdet", "logdet"]),
             "leaf_scale": lscale}
 
